@@ -29,10 +29,11 @@ type Params struct {
 	Racing                   bool // publishing starts at once instead of after the three subscriptions reached Joe's loop
 	TwoPubs                  bool // the messages are split between two publisher threads (odd / even)
 	WithLastID               bool // every subscriber presents a Last-Event-ID
+	FailCancel               bool // the failing call also cancels that subscriber's context in the same step (as net/http does)
 }
 
 func (p Params) Name() string {
-	return fmt.Sprintf("fail%d@%d-put%d/%d-replay%d/%d-msgs%d-slow%v-late%v-racing%v-ob%d", p.FailSub, p.FailAt, p.PutFailAt, p.PutKind, p.ReplayFailAt, p.ReplayKind, p.NMsg, p.Slow, p.LateSub, p.Racing, p.Orders) + map[bool]string{true: "-twopubs", false: ""}[p.TwoPubs] + map[bool]string{true: "-lastid", false: ""}[p.WithLastID]
+	return fmt.Sprintf("fail%d@%d-put%d/%d-replay%d/%d-msgs%d-slow%v-late%v-racing%v-ob%d", p.FailSub, p.FailAt, p.PutFailAt, p.PutKind, p.ReplayFailAt, p.ReplayKind, p.NMsg, p.Slow, p.LateSub, p.Racing, p.Orders) + map[bool]string{true: "-twopubs", false: ""}[p.TwoPubs] + map[bool]string{true: "-lastid", false: ""}[p.WithLastID] + map[bool]string{true: "-failcancel", false: ""}[p.FailCancel]
 }
 
 type world struct {
@@ -66,6 +67,7 @@ func body(p Params) func() {
 			wr := &jh.Writer{Name: fmt.Sprintf("W%d", i+1), Ctx: ctx, JL: w.JL, Returned: ret, Slow: p.Slow}
 			if p.FailSub == i+1 {
 				wr.FailAt = p.FailAt
+				wr.FailCancel = p.FailCancel
 			}
 			rec := &jo.Sub{W: wr, Topics: subTopics[i]}
 			w.Subs = append(w.Subs, rec)
@@ -447,6 +449,12 @@ func Scenarios(tier string) []run.Scenario {
 				continue
 			}
 			add(Params{FailSub: f, FailAt: 1, PutFailAt: sc.pa, PutKind: sc.pk, ReplayFailAt: sc.ra, ReplayKind: sc.rk, NMsg: 2, Racing: true})
+		}
+	}
+	// the failing call also cancels the subscriber's context: it still gets its own error, the others everything
+	for f := 1; f <= 3; f++ {
+		for at := 1; at <= 2; at++ {
+			add(Params{FailSub: f, FailAt: at, NMsg: 2, FailCancel: true})
 		}
 	}
 	// subscribers that present a Last-Event-ID while the replayer fails or panics in Replay or Put
